@@ -253,6 +253,13 @@ class FSA:
 
             labels = list(label) if elist else [label]
             for l in labels:
+                if self._graph_dict[tail].get(l, head) != head:
+                    raise FSAException(
+                        f"vertex {tail} already has an edge labeled '{l}'"
+                        f" (to {self._graph_dict[tail][l]}): adding one to"
+                        f" {head} would make the automaton nondeterministic"
+                    )
+
                 if head not in self._out_dict[tail]:
                     self._out_dict[tail][head] = []
                     self._in_dict[head][tail] = []
